@@ -1363,6 +1363,31 @@ def directed(rng, sch, budget):
         x = mk_field(fd[0], args=list(args.items()), sels=leaf_or_sub(sch, fd[2]))
         out.append(("variable-in-input-field", [mk_op([x if T == q else at_type(T, [x])],
                                                       vars_=[("v", vt, default, [])])]))
+    # D2b. the same two levels down: the object is an item of a list literal (`linp: [{f: $v}]`), the single item of
+    # a list (`linp: {f: $v}`), or both positions hold the variable (`li: [$v], linp: [{f: $v}]`)
+    iname0 = list(sch.inputs)[0]
+    group = []
+    for f, ft, fdv in sch.inputs[iname0]:
+        for vt in tvariants(ft):
+            for dv in ("none", "null", "value"):
+                for shape in ("item", "single", "both"):
+                    group.append((f, ft, vt, dv, shape))
+    for f, ft, vt, dv, shape in cap(group, budget * 2):
+        default = None
+        if dv == "null":
+            default = ("null",)
+        elif dv == "value":
+            default = const_value(rng, sch, vt, allow_null=False)
+        base = dict(const_value(rng, sch, NN(N(iname0)))[1])
+        base[f] = ("var", "v")
+        obj = ("obj", list(base.items()))
+        fd = sch.field(q, "scalars")
+        args = dict(const_args(rng, sch, fd[1]))
+        args["linp"] = obj if shape == "single" else ("list", [obj])
+        if shape == "both":
+            args["li"] = ("list", [("var", "v")])
+        out.append(("variable-in-input-field-in-list", [mk_op([mk_field("scalars", args=list(args.items()))],
+                                                              vars_=[("v", vt, default, [])])]))
     # D3. variables inside custom scalar literals
     jn = sch.scalars[0]
     for v, vt in [(("obj", [("a", ("var", "v"))]), N("Int")), (("obj", [("a", ("var", "undefinedVar"))]), None),
